@@ -383,14 +383,29 @@ Definition vect_intersection (a b : box) : option box :=
   let tmp := map (fun p => filter (fun ax => memb Nat.eqb ax (snd p)) (fst p)) (combine a b) in
   if existsb (fun x => length x =? 0) tmp then None else Some tmp.
 
-(* `... for j in sub if j`: None and the EMPTY tuple are both falsy *)
+(* `... for j in sub if j is not None` (choice.py:558, after fix df06735): only None is dropped *)
+Definition not_none (j : option box) : list box :=
+  match j with
+  | Some t => [t]
+  | None => []
+  end.
+
+Definition intersection (c1 c2 : choices) : res choices :=
+  if negb (c1.(index) =? c2.(index))%Z then Err AssertionError
+  else Ok (mk_choices
+             (flat_map (fun v1 => flat_map (fun v2 => not_none (vect_intersection v1 v2)) c2.(valid))
+                       c1.(valid))
+             c1.(index)).
+
+(* regression only: the filter as it was before df06735, `... for j in sub if j` -- None and the
+   EMPTY tuple are both falsy, so the only vector of dom^0 was dropped *)
 Definition truthy (j : option box) : list box :=
   match j with
   | Some (e :: r) => [e :: r]
   | _ => []
   end.
 
-Definition intersection (c1 c2 : choices) : res choices :=
+Definition intersection_truthy (c1 c2 : choices) : res choices :=
   if negb (c1.(index) =? c2.(index))%Z then Err AssertionError
   else Ok (mk_choices
              (flat_map (fun v1 => flat_map (fun v2 => truthy (vect_intersection v1 v2)) c2.(valid))
